@@ -168,6 +168,16 @@ func c14(r *ev.Run) {
 					run(l, "validate")
 				}
 			}
+			// lengths congruent to an admissible one modulo 2^8 / 2^16 (narrowed length checks)
+			for _, okLen := range []int{8, 10, 20, 32, 64, 128, 0} {
+				for _, wrap := range []int{256, 512, 65536} {
+					l := base
+					l[f] = okLen + wrap
+					run(l, "input.Validate")
+					run(l, "generate")
+					run(l, "validate")
+				}
+			}
 		}
 		// every pair of fields x every pair of lengths
 		for f := 0; f < 5; f++ {
